@@ -14,6 +14,8 @@ pub tracked struct Trace<Req, Res, E> {
     pub ghost queue: Seq<(usize, Result<Res, E>)>,   // messages sent on the result channel and not yet received
     pub ghost last_recv: Option<(usize, Result<Res, E>)>,   // the message most recently received from the result channel
     pub ghost tx_alive: bool,               // the function still holds its own sender of the result channel
+    pub ghost chan_cap: nat,                // capacity the result channel was created with
+    pub ghost spawn_at: Seq<nat>,           // instant at which each detached task was started
     pub ghost recv_ok: nat,                 // Ok results received
     pub ghost recv_err: nat,                // Err results received
     pub ghost draws: nat,                   // random draws this task consumed from the seeded generator
@@ -61,7 +63,7 @@ impl<Req, Res, E> Trace<Req, Res, E> {
     }
     pub open spec fn fresh(self) -> bool {
         self.ev.len() == 0 && self.calls == 0 && self.done == 0 && self.held.len() == 0 && self.held.finite() && self.unguarded == 0 && self.slept == 0
-            && self.notes.len() == 0 && self.spawned == 0 && self.queue.len() == 0 && self.last_recv is None && !self.tx_alive && self.recv_ok == 0 && self.recv_err == 0 && self.draws == 0 && self.call_at == 0 && self.timer is None && self.awaits_before_timer == 0 && !self.inner_dropped && !self.opaque && self.store_gets.len() == 0 && self.store_inserts.len() == 0 && self.sent.len() == 0 && self.removed == 0 && self.published is None && self.permits == 0 && self.guarded == 0 && self.incs == 0 && self.decs == 0 && self.obs_inflight is None && self.obs_limit is None && self.reqs.len() == 0 && self.slept_since_done == 0 && !self.granted_since_done && !self.denied && self.fb_calls == 0 && self.fb_req is None && self.fb_done is None
+            && self.notes.len() == 0 && self.spawned == 0 && self.spawn_at.len() == 0 && self.queue.len() == 0 && self.last_recv is None && !self.tx_alive && self.recv_ok == 0 && self.recv_err == 0 && self.draws == 0 && self.call_at == 0 && self.timer is None && self.awaits_before_timer == 0 && !self.inner_dropped && !self.opaque && self.store_gets.len() == 0 && self.store_inserts.len() == 0 && self.sent.len() == 0 && self.removed == 0 && self.published is None && self.permits == 0 && self.guarded == 0 && self.incs == 0 && self.decs == 0 && self.obs_inflight is None && self.obs_limit is None && self.reqs.len() == 0 && self.slept_since_done == 0 && !self.granted_since_done && !self.denied && self.fb_calls == 0 && self.fb_req is None && self.fb_done is None
             && self.last_req is None && self.last_done is None && !self.admitted && !self.created && self.blocked == 0
     }
 }
